@@ -57,7 +57,12 @@ theorem count_holdsW_set {l : List Stopper} {j : Nat} {st st' : Stopper} (h : l[
 
 /-! ### Stop programs -/
 
-theorem progs : stopProg = [.lock, .cancel, .unlock] ∧ sawProg = [.lock, .cancel, .unlock, .wait] := by decide
+/-- the stop programs, for bodies of `Stop` / `StopAndWait` with exactly three / two call statements and
+no other statement (`Proofs/SkeletonGroup.lean`) -/
+theorem progs : stopProg = [.lock, .cancel, .unlock] ∧ sawProg = [.lock, .cancel, .unlock, .wait] :=
+  Juniper.Proofs.SkeletonGroup.under
+    (And.intro Juniper.Proofs.SkeletonGroup.pskelGroupStop_tie Juniper.Proofs.SkeletonGroup.pskelGroupStopAndWait_tie)
+    (by decide)
 
 /-- (holdsW, safe) as a function of what a stopper still has to do -/
 def stopperShape : List StopOp → Option (Bool × Bool)
